@@ -236,9 +236,13 @@ def list_map_pattern(eng, m, st):
             and isinstance(lam.body.op, (ast.Add, ast.Sub)) and isinstance(lam.body.left, ast.Name) and isinstance(lam.body.right, ast.Name)
             and [lam.body.left.id, lam.body.right.id] == [a.arg for a in lam.args.args]):
         return None
-    sign = 1 if isinstance(lam.body.op, ast.Add) else -1
+    return elementwise(eng, m.args[1], m.args[2], 1 if isinstance(lam.body.op, ast.Add) else -1, st)
+
+
+def elementwise(eng, anode, bnode, sign, st):
+    """the elementwise sum (sign 1) / difference (sign -1) of two int sequences, as long as the shorter one"""
     outs = []
-    for s, vals in eng.ev_seq([m.args[1], m.args[2]], st):
+    for s, vals in eng.ev_seq([anode, bnode], st):
         if isinstance(vals, Raise):
             outs.append((s, vals))
             continue
@@ -323,6 +327,9 @@ def call_name(eng, node, name, st):
         return with_args(eng, node, st, lambda s, a, k: call_function(eng, f, None, a, k, s, None, False))
     if name == "super":
         raise Unsupported("bare super()")
+    if ("callhook_" + name) in eng.reg.specfuns and name not in st.env:
+        # a builtin modelled by a contract module on the unevaluated call (its arguments may be lambdas)
+        return eng.reg.specfuns["callhook_" + name](eng, node, st)
     if name in st.env:
         if st.env[name].ty.kind == "type" and eng.reg.specfuns.get("type_value_call"):
             # a class object held in a local variable, called as a constructor
@@ -1217,7 +1224,49 @@ def lvalue_or_value(eng, node, st):
     return [(s, v if isinstance(v, Raise) else ValueLV(v)) for s, v in eng.ev(node, st)]
 
 
+class AliasLV:
+    """A local bound to a container that lives in the heap (``lst = self._listeners[t]``), not modified since: reads go to the
+    local, a mutation goes to the place the local was read from and refreshes the local."""
+    def __init__(self, name, origin, key, node):
+        self.name, self.origin, self.key, self.node = name, origin, key, node
+
+    def get(self, eng, st):
+        return st.env[self.name]
+
+    def set(self, eng, st, sv):
+        self.origin.set(eng, st, sv)
+        st.env[self.name] = SV(sv.ty, sv.t, const=("heapalias", self.key, st.heap[self.key], self.node))
+
+    def owned(self, eng, st):
+        return self.origin.owned(eng, st)
+
+
+def alias_lvalue(eng, lv, s):
+    """NameLV of a heap alias whose origin still denotes the very same value -> AliasLV; otherwise lv unchanged."""
+    if not isinstance(lv, NameLV):
+        return lv
+    v = s.env.get(lv.name)
+    org = getattr(v, "const", None)
+    if not (isinstance(org, tuple) and len(org) == 4 and org[0] == "heapalias"):
+        return lv
+    _, key, arr, node = org
+    if key not in s.heap or not s.heap[key].eq(arr):
+        return lv
+    try:
+        outs = lvalue(eng, node, s.fork())
+        if len(outs) != 1 or isinstance(outs[0][1], Raise):
+            return lv
+        cur = outs[0][1].get(eng, s.fork())
+    except (Unsupported, KeyError):
+        return lv
+    if cur.ty.kind != v.ty.kind or not z3.simplify(cur.t).eq(z3.simplify(v.t)):
+        return lv
+    return AliasLV(lv.name, outs[0][1], key, node)
+
+
 def method_call(eng, lv, name, args, kwargs, s, node):
+    if not eng.spec:
+        lv = alias_lvalue(eng, lv, s)
     try:
         recv = lv.get(eng, s)
     except KeyError:
